@@ -518,8 +518,15 @@ func (b *builder) method(m *sp.Method) {
 						}
 					})
 				}
-				if len(g.Headers) > 0 || len(g.Trailers) > 0 {
+				if len(g.Headers) > 0 || len(g.Trailers) > 0 || len(g.RespMessage) > 0 {
 					Response(CodeOK, func() {
+						if len(g.RespMessage) > 0 {
+							Message(func() {
+								for _, p := range g.RespMessage {
+									Attribute(p.Attr)
+								}
+							})
+						}
 						if len(g.Headers) > 0 {
 							Headers(func() {
 								for _, p := range g.Headers {
